@@ -7,6 +7,7 @@
 package pac
 
 import (
+	"fmt"
 	"net"
 	"net/url"
 	"sync"
@@ -21,10 +22,12 @@ func NewProxyResolverPool(cfg *ProxyResolverConfig, r *net.Resolver, opts ...Opt
 		return nil, err
 	}
 
+	// Every resolver runs the script's top level for itself, and what succeeded once may fail later
+	// (a name that no longer resolves): the caller that needed the resolver gets the error.
 	f := func() any {
 		p, err := NewProxyResolver(cfg, r, opts...)
 		if err != nil {
-			panic(err)
+			return err
 		}
 		return p
 	}
@@ -40,12 +43,22 @@ func NewProxyResolverPool(cfg *ProxyResolverConfig, r *net.Resolver, opts ...Opt
 // The hostname is optional, if empty it will be extracted from URL.
 // This is to handle cases when the hostname is not a valid hostname, but a URL.
 func (pool *ProxyResolverPool) FindProxyForURL(u *url.URL, hostname string) (p string, err error) {
-	pr := pool.get()
+	pr, err := pool.get()
+	if err != nil {
+		return "", err
+	}
 	p, err = pr.FindProxyForURL(u, hostname)
 	pool.pool.Put(pr)
 	return
 }
 
-func (pool *ProxyResolverPool) get() *ProxyResolver {
-	return pool.pool.Get().(*ProxyResolver) //nolint:forcetypeassert // we know it's a ProxyResolver
+func (pool *ProxyResolverPool) get() (*ProxyResolver, error) {
+	switch v := pool.pool.Get().(type) {
+	case *ProxyResolver:
+		return v, nil
+	case error:
+		return nil, v
+	default:
+		return nil, fmt.Errorf("unexpected %T in the resolver pool", v)
+	}
 }
